@@ -25,7 +25,26 @@
    delivers kernel events; the kernel is: a registration (epoll entry) that fires only while it exists
    and is armed.  The registration handler (client code that may merge data into / cancel its own source)
    is called out once on the target queue after installation and before the first event delivery; the
-   flags used by the delivery gate are loaded AFTER that callout.  Not modelled: items submitted to the source itself,
+   flags used by the delivery gate are loaded AFTER that callout.
+
+   dispatch_source_set_cancel_handler[_f] on an ACTIVATED source (MaxSets > 0; src/source.c _dispatch_source_set_handler,
+   _dispatch_source_set_handler_slow, _dispatch_source_handler_replace; src/queue.c _dispatch_barrier_trysync_or_async_f,
+   _dispatch_barrier_async_detached_f, _dispatch_lane_push, _dispatch_lane_serial_drain): the handlers are GENERATIONS
+   (the one installed before activation is G0 = 1, the k-th call installs G0 + k, or 0 = NULL: clear).  The call loads the
+   flags (diagnostics only: a handler mutation past cancellation is NOT ignored), then either acquires the source's
+   barrier when its dq_state is completely idle, exchanges the slot inline and leaves through
+   dx_wakeup(BARRIER_COMPLETE), or pushes a barrier item on the source's OWN item list (wakeup(MAKE_DIRTY) when the
+   list was empty); _dispatch_source_invoke2 drains that list first, on whatever queue it runs (manager included),
+   under the drain lock; _dispatch_source_wakeup's last test (`!tq && _dispatch_queue_class_probe`) and its
+   "CANCELED && DELETED && a handler is left" test are what bring a finished source back to its target queue for the
+   cancel callout of a handler installed late.  What the code guarantees (and the ghosts judge): every requested
+   replacement takes effect; a handler that is in the slot when or after the source is cancelled is invoked exactly
+   once unless a later replacement takes it out first; a replaced handler is never invoked after its replacement took
+   effect; no handler twice; every cancel callout obeys the old clauses (target queue, no event handler running,
+   after unregistration, never followed by an event handler).  The code does NOT guarantee one callout per source: a
+   replacement that takes effect after the callout of the previous handler gets its own callout (invariant
+   OneCalloutPerSource is refuted on purpose, informational).
+   Not modelled: other items submitted to the source itself, handler mutation before activation (the inactive fast path),
    dispatch_source_set_timer after activation (dt_pending_config), retargeting, DQF_RELEASED (last
    release without cancel), QoS/overrides, the +2 reference ledger (C17), registration failure.
    DSF_NEEDS_EVENT (deferred deletion through a kernel EV_DELETE) cannot be produced on this backend:
@@ -49,6 +68,9 @@ CONSTANTS Kind,               \* "data" | "timer" | "fd" | "signal"
           AllowSuspend,       \* one dispatch_suspend / dispatch_resume pair by the client
           AllowHup,           \* fd: the peer may close (EPOLLHUP)
           MaxEv,              \* bound on kernel events / merges / timer fires
+          MaxSets,            \* number of dispatch_source_set_cancel_handler[_f] calls after activation
+          SetCtx,             \* contexts they are issued from: subset of {"handler", "foreign", "tqitem"}
+          AllowClear,         \* a call may pass NULL (clear the handler)
           HupFix,             \* FALSE: pinned code: _dispatch_source_merge_evt finalizes any unote it finds unregistered
                               \*        (EV_UDATA_SPECIFIC == 0 on this backend, so the guard of that branch is void);
                               \* TRUE: repaired: only for EV_ONESHOT deliveries (never the case for muxed epoll unotes)
@@ -62,6 +84,9 @@ IsTimer == Kind = "timer"
 IsDirect == Kind = "data"           \* du_is_direct: only the custom data sources on this backend
 IsMuxed == Kind \in {"fd", "signal"}
 DKQ == IF IsDirect THEN "tq" ELSE "mgr"    \* the "kevent queue" of _dispatch_source_invoke2 / _wakeup
+G0 == IF HasCancelHandler THEN 1 ELSE 0                          \* generation of the handler set before activation
+Gens == 1..(G0 + MaxSets)                                        \* 0 = no handler (NULL)
+ASSUME MaxSets > 0 => ~AllowCaw                                  \* cancel_and_wait: "Source has a cancel handler" is a client crash
 DU0 == [reg |-> FALSE, armed |-> FALSE, ndel |-> FALSE]          \* DU_STATE_UNREGISTERED
 DUArmed == [reg |-> TRUE, armed |-> TRUE, ndel |-> FALSE]        \* wlh | DU_STATE_ARMED
 
@@ -81,32 +106,34 @@ FAddWaiter(f) == f \cup {"CANCEL_WAITER"}
 \* _du_state_needs_rearm
 DuNeedsRearm(d) == d.reg /\ ~d.armed /\ ~d.ndel
 
-VARIABLES src,    \* [dqf, du, installed, pending, hnd]            the source object and its refs
+VARIABLES src,    \* [dqf, du, installed, pending, hnd, items]     the source object, its refs and its own item list
           lane,   \* [lock, dirty, enq, inactive, activating, susp]  abstraction of the source's dq_state
           exe,    \* [mgrList, tqList, tqOwner]                     executor queues
           kern,   \* [reg, armed, mux, readable, hup, sig]          epoll registration + muxnote + fd state
           pc, lv, \* per thread control point and locals
-          cli,    \* [did, ev, fcancels]                            client / environment budgets
+          cli,    \* [did, ev, fcancels, sets]                      client / environment budgets
           gh      \* ghosts for the property
 vars == <<src, lane, exe, kern, pc, lv, cli, gh>>
 
 L0 == [onq |-> "none", dqf |-> {}, ret |-> "none", retq |-> "none", avoid |-> FALSE,
        wkf |-> {}, wdqf |-> {}, wdu |-> DU0, wktq |-> "none", wkret |-> "idle",
        ctx |-> "none", ccont |-> "idle", ucont |-> "idle", tcont |-> "idle", acont |-> "idle", mcont |-> "idle", dcont |-> "idle",
-       prev |-> 0, old |-> {}]
+       prev |-> 0, old |-> {}, sg |-> 0, scont |-> "idle", hg |-> 0]
 
 Init ==
     /\ src = [dqf |-> {}, du |-> DU0, installed |-> FALSE, pending |-> 0,
-              hnd |-> [ev |-> TRUE, cancel |-> HasCancelHandler, reg |-> HasRegHandler]]
+              hnd |-> [ev |-> TRUE, cancel |-> G0, reg |-> HasRegHandler], items |-> <<>>]
     /\ lane = [lock |-> NULL, dirty |-> FALSE, enq |-> "none", inactive |-> TRUE, activating |-> FALSE, susp |-> 0]
     /\ exe = [mgrList |-> FALSE, tqList |-> <<>>, tqOwner |-> NULL]
     /\ kern = [reg |-> FALSE, armed |-> FALSE, mux |-> FALSE, readable |-> FALSE, hup |-> FALSE, sig |-> FALSE]
     /\ pc = [t \in Threads |-> "idle"]
     /\ lv = [t \in Threads |-> L0]
-    /\ cli = [did |-> {}, ev |-> 0, fcancels |-> 0]
+    /\ cli = [did |-> {}, ev |-> 0, fcancels |-> 0, sets |-> 0]
     /\ gh = [hRunning |-> 0, hStarts |-> 0, ownCancel |-> FALSE, foreignOr |-> FALSE, lateStarts |-> 0,
              chStarts |-> 0, chEnds |-> 0, cawRet |-> FALSE, startsAfterCaw |-> 0, runningAtCawRet |-> FALSE,
-             regStarts |-> 0, regRunning |-> 0, bad |-> ""]
+             regStarts |-> 0, regRunning |-> 0, bad |-> "",
+             chS |-> [g \in Gens |-> 0], chE |-> [g \in Gens |-> 0],      \* starts / ends per handler generation
+             req |-> {}, inst |-> (IF HasCancelHandler THEN {1} ELSE {}), repl |-> {}]   \* requested / put in the slot / taken out by a replacement
 
 Suspended == lane.inactive \/ lane.activating \/ lane.susp > 0     \* DISPATCH_QUEUE_IS_SUSPENDED
 Go(t, l) == pc' = [pc EXCEPT ![t] = l]
@@ -124,7 +151,7 @@ WkRead1(t) == /\ pc[t] = "wk_r1"
               /\ Set(t, "wk_r2", [lv[t] EXCEPT !.wdqf = src.dqf, !.wdu = src.du])
               /\ UNCHANGED <<src, lane, exe, kern, cli, gh>>
 \* the chain of tests (same order as in _dispatch_source_invoke2)
-WakeTarget(f, d, flags) ==
+WakeTarget0(f, d, flags) ==
     IF ~src.installed THEN DKQ
     ELSE IF src.hnd.reg THEN "tq"                                    \* the registration handler needs to be delivered
     ELSE IF d.ndel THEN "tq"
@@ -133,9 +160,14 @@ WakeTarget(f, d, flags) ==
          (IF IsTimer /\ ~src.du.armed THEN "tq"                       \* timers can cheat if not armed
           ELSE IF "NEEDS_EVENT" \in f /\ "event" \notin flags THEN "none"
           ELSE DKQ)
-    ELSE IF "CANCELED" \in f /\ "DELETED" \in f /\ (src.hnd.ev \/ src.hnd.cancel \/ src.hnd.reg) THEN "tq"
+    ELSE IF "CANCELED" \in f /\ "DELETED" \in f /\ (src.hnd.ev \/ src.hnd.cancel # 0 \/ src.hnd.reg)
+                 /\ Mut # "final_wakeup_ignores_handlers" THEN "tq"
     ELSE IF "CANCELED" \notin f /\ DuNeedsRearm(src.du) THEN DKQ
     ELSE "none"
+\* if (!tq && _dispatch_queue_class_probe(ds)) tq = DISPATCH_QUEUE_WAKEUP_TARGET
+WakeTarget(f, d, flags) ==
+    LET w == WakeTarget0(f, d, flags) IN
+    IF w = "none" /\ src.items # <<>> /\ Mut # "wakeup_ignores_items" THEN "tq" ELSE w
 WkRead2(t) == /\ pc[t] = "wk_r2"
               /\ Set(t, "wk_rmw", [lv[t] EXCEPT !.wktq = WakeTarget(lv[t].wdqf, lv[t].wdu, lv[t].wkf)])
               /\ UNCHANGED <<src, lane, exe, kern, cli, gh>>
@@ -201,6 +233,51 @@ COr(t) ==
        ELSE Wake(t, {"dirty"}, lv[t].ccont)
     /\ UNCHANGED <<lane, exe, kern, cli>>
 
+(* ============ dispatch_source_set_cancel_handler[_f] on an activated source (subroutine; continuation lv.scont) ============ *)
+\* the client's call: the next generation, or NULL
+NextGen == G0 + cli.sets + 1
+SetOps == {"set"} \cup (IF AllowClear THEN {"clear"} ELSE {})
+SetCall(t, base, cont) ==
+    \E op \in SetOps :
+       LET g == IF op = "set" THEN NextGen ELSE 0 IN
+       /\ cli' = [cli EXCEPT !.sets = @ + 1]
+       /\ gh' = [gh EXCEPT !.req = IF g # 0 THEN @ \cup {g} ELSE @]
+       /\ Set(t, "s_dqf", [base EXCEPT !.sg = g, !.scont = cont])
+\* _dispatch_source_handler_replace: xchg of ds_handler[DS_CANCEL_HANDLER]; the previous continuation is disposed
+Replace(s, g) == [s EXCEPT !.hnd = [@ EXCEPT !.cancel = g]]
+GhReplace(g) == [gh EXCEPT !.inst = IF g # 0 THEN @ \cup {g} ELSE @,
+                           !.repl = IF src.hnd.cancel # 0 THEN @ \cup {src.hnd.cancel} ELSE @]
+SRet(t) == Set(t, lv[t].scont, [lv[t] EXCEPT !.sg = 0, !.scont = "idle"])
+\* _dispatch_source_set_handler: dc = _dispatch_source_handler_alloc(); _dispatch_lane_try_inactive_suspend(ds) gives up (the
+\* source is not inactive); dqf = _dispatch_queue_atomic_flags(ds): DSF_STRICT -> client crash; "Ignore handlers mutations past
+\* cancelation, it's harmless" guards the deprecation DIAGNOSTICS only
+\* (Mut "set_dropped_when_canceled": ... taken literally: the continuation is disposed and the call returns)
+SDqf(t) == /\ pc[t] = "s_dqf"
+           /\ IF Mut = "set_dropped_when_canceled" /\ "CANCELED" \in src.dqf THEN SRet(t)
+              ELSE Go(t, "s_try") /\ lv' = lv
+           /\ UNCHANGED <<src, lane, exe, kern, cli, gh>>
+\* _dispatch_barrier_trysync_or_async_f(ds, dc, _dispatch_source_set_handler_slow, 0):
+\* _dispatch_queue_try_acquire_barrier_sync_and_suspend: one cmpxchg from the `completely idle` dq_state (no owner, not
+\* enqueued, not dirty, not suspended) to { ib:1, qf:1, owner = self }; dq_items_tail is NOT consulted
+LaneIdle == lane.lock = NULL /\ ~lane.dirty /\ lane.enq = "none" /\ ~Suspended
+STry(t) == /\ pc[t] = "s_try"
+           /\ IF LaneIdle THEN lane' = [lane EXCEPT !.lock = t] /\ Go(t, "s_repl")
+              ELSE lane' = lane /\ Go(t, "s_push")
+           /\ UNCHANGED <<src, exe, kern, lv, cli, gh>>
+\* _dispatch_barrier_trysync_or_async_f_complete: _dispatch_source_set_handler_slow inline (xchg of the slot, the old
+\* continuation is disposed), then dx_wakeup(ds, 0, DISPATCH_WAKEUP_BARRIER_COMPLETE)
+SRepl(t) == /\ pc[t] = "s_repl" /\ src' = Replace(src, lv[t].sg) /\ gh' = GhReplace(lv[t].sg)
+            /\ Set(t, "wk_r1", [lv[t] EXCEPT !.wkf = {"bc"}, !.wkret = lv[t].scont, !.sg = 0, !.scont = "idle"])
+            /\ UNCHANGED <<lane, exe, kern, cli>>
+\* _dispatch_barrier_async_detached_f -> _dispatch_lane_push: tail exchange + link; the list was empty:
+\* dx_wakeup(MAKE_DIRTY | CONSUME_2); otherwise nothing (no QoS overrides in this configuration)
+SPush(t) == /\ pc[t] = "s_push"
+            /\ src' = [src EXCEPT !.items = Append(@, lv[t].sg)]
+            /\ IF src.items = <<>>
+               THEN Set(t, "wk_r1", [lv[t] EXCEPT !.wkf = {"dirty"}, !.wkret = lv[t].scont, !.sg = 0, !.scont = "idle"])
+               ELSE SRet(t)
+            /\ UNCHANGED <<lane, exe, kern, cli, gh>>
+
 (* ================================ activation ================================ *)
 \* dispatch_activate -> _dispatch_lane_resume(ds, true): { sc:0 i:1 na:1 } -> { sc:1 i:0 na:0 }
 ActRmw(t) ==
@@ -245,16 +322,32 @@ Done(t) == /\ pc[t] = "done"
 InvLock(t) ==
     /\ pc[t] = "inv_lock"
     /\ IF ~Suspended /\ lane.lock = NULL /\ ~(lv[t].onq = "tq" /\ lane.enq = "mgr")
-       THEN lane' = [lane EXCEPT !.lock = t, !.dirty = FALSE] /\ Go(t, "i_inst") /\ UNCHANGED <<exe, lv>>
+       THEN /\ lane' = [lane EXCEPT !.lock = t, !.dirty = FALSE] /\ exe' = exe
+            /\ Set(t, IF MaxSets = 0 THEN "i_inst" ELSE "i_drain", [lv[t] EXCEPT !.retq = "none", !.avoid = FALSE])
        ELSE lane' = [lane EXCEPT !.enq = IF @ = Own(t) THEN "none" ELSE @] /\ Set(t, "idle", L0) /\ exe' = Rel(exe, t)
     /\ UNCHANGED <<src, kern, cli, gh>>
 Ret(t, r) == Set(t, "inv_fin", [lv[t] EXCEPT !.ret = r])
+\* if (_dispatch_queue_class_probe(ds)) retq = _dispatch_lane_serial_drain(ds, ...)  ("intentionally always drain even when
+\* on the manager queue"); _dispatch_lane_drain: stop (retq = target) when the source is suspended, else pop the head and
+\* invoke it: _dispatch_source_set_handler_slow -> _dispatch_source_handler_replace
+IDrain(t) ==
+    /\ pc[t] = "i_drain"
+    /\ IF src.items = <<>> THEN Go(t, "i_inst") /\ lv' = lv
+       ELSE IF Suspended THEN Set(t, "i_inst", [lv[t] EXCEPT !.retq = "tq"])
+       ELSE Go(t, "i_pop") /\ lv' = lv
+    /\ UNCHANGED <<src, lane, exe, kern, cli, gh>>
+IPop(t) == /\ pc[t] = "i_pop" /\ src' = [src EXCEPT !.items = Tail(@)]
+           /\ Set(t, "i_drepl", [lv[t] EXCEPT !.sg = Head(src.items)])
+           /\ UNCHANGED <<lane, exe, kern, cli, gh>>
+IDrepl(t) == /\ pc[t] = "i_drepl" /\ src' = Replace(src, lv[t].sg) /\ gh' = GhReplace(lv[t].sg)
+             /\ Set(t, "i_drain", [lv[t] EXCEPT !.sg = 0])
+             /\ UNCHANGED <<lane, exe, kern, cli>>
 \* if (!ds->ds_is_installed) { if (dq != dkq) return dkq; _dispatch_source_install }
 IInst(t) ==
     /\ pc[t] = "i_inst"
-    /\ IF src.installed THEN Set(t, "i_susp", [lv[t] EXCEPT !.retq = "none", !.avoid = FALSE])
+    /\ IF src.installed THEN Go(t, "i_susp") /\ lv' = lv
        ELSE IF lv[t].onq # DKQ THEN Ret(t, DKQ)
-       ELSE Set(t, "i_install", [lv[t] EXCEPT !.retq = "none", !.avoid = FALSE])
+       ELSE Go(t, "i_install") /\ lv' = lv
     /\ UNCHANGED <<src, lane, exe, kern, cli, gh>>
 \* _dispatch_unote_register: data -> ARMED; timer -> registered, not armed; muxed -> muxnote + EPOLL_CTL_ADD, ARMED
 IInstall(t) ==
@@ -343,16 +436,20 @@ HStart(t) ==
                   ELSE ""]
     /\ Go(t, "h_body")
     /\ UNCHANGED <<src, lane, exe, kern, lv, cli>>
+\* (with "handler" \in SetCtx the handler may also call dispatch_source_set_cancel_handler, before or after its cancel)
 HBody(t) ==
     /\ pc[t] = "h_body"
     /\ \/ /\ HandlerCancels /\ "hcancel" \notin cli.did
           /\ cli' = [cli EXCEPT !.did = @ \cup {"hcancel"}]
-          /\ Set(t, "c_or", [lv[t] EXCEPT !.ctx = "handler", !.ccont = "h_end"])
+          /\ Set(t, "c_or", [lv[t] EXCEPT !.ctx = "handler", !.ccont = IF "handler" \in SetCtx THEN "h_body" ELSE "h_end"])
+          /\ kern' = kern /\ gh' = gh
+       \/ /\ "handler" \in SetCtx /\ cli.sets < MaxSets
+          /\ SetCall(t, lv[t], "h_body")
           /\ kern' = kern
-       \/ /\ Go(t, "h_end") /\ lv' = lv /\ cli' = cli
+       \/ /\ Go(t, "h_end") /\ lv' = lv /\ cli' = cli /\ gh' = gh
           /\ \/ kern' = kern
              \/ Kind = "fd" /\ kern.readable /\ kern' = [kern EXCEPT !.readable = FALSE]    \* the handler read the data
-    /\ UNCHANGED <<src, lane, exe, gh>>
+    /\ UNCHANGED <<src, lane, exe>>
 HEnd(t) == /\ pc[t] = "h_end" /\ gh' = [gh EXCEPT !.hRunning = @ - 1] /\ Go(t, "l_dqf2")
            /\ UNCHANGED <<src, lane, exe, kern, lv, cli>>
 \* dqf = _dispatch_queue_atomic_flags(ds); avoid_starvation unless cancelled / deleted
@@ -384,7 +481,7 @@ CalloutCond(f) == "CANCELED" \in f /\ ("DELETED" \in f \/ Mut = "callout_before_
 ICallout(t) ==
     /\ pc[t] = "i_callout"
     /\ IF CalloutCond(lv[t].dqf)
-       THEN IF lv[t].onq # "tq" /\ (src.hnd.ev \/ src.hnd.cancel \/ src.hnd.reg) /\ Mut # "callout_on_mgr"
+       THEN IF lv[t].onq # "tq" /\ (src.hnd.ev \/ src.hnd.cancel # 0 \/ src.hnd.reg) /\ Mut # "callout_on_mgr"
             THEN Set(t, "i_rearm", [lv[t] EXCEPT !.retq = "tq", !.avoid = FALSE])
             ELSE Set(t, "cc_take", [lv[t] EXCEPT !.avoid = FALSE, !.tcont = "cc_done"])
        ELSE Go(t, "i_rearm") /\ lv' = lv
@@ -392,16 +489,20 @@ ICallout(t) ==
 \* _dispatch_source_cancel_callout: take the cancel handler, zero the data, free the other handlers
 CcTake(t) ==
     /\ pc[t] = "cc_take"
-    /\ src' = [src EXCEPT !.hnd = [ev |-> FALSE, cancel |-> IF Mut = "handler_not_taken" THEN @.cancel ELSE FALSE, reg |-> FALSE],
+    /\ src' = [src EXCEPT !.hnd = [ev |-> FALSE, cancel |-> IF Mut = "handler_not_taken" THEN @.cancel ELSE 0, reg |-> FALSE],
                           !.pending = 0]
-    /\ IF src.hnd.cancel /\ "CANCELED" \in src.dqf THEN Go(t, "ch_start") ELSE Go(t, lv[t].tcont)
-    /\ UNCHANGED <<lane, exe, kern, lv, cli, gh>>
+    /\ IF src.hnd.cancel # 0 /\ "CANCELED" \in src.dqf THEN Set(t, "ch_start", [lv[t] EXCEPT !.hg = src.hnd.cancel])
+       ELSE Go(t, lv[t].tcont) /\ lv' = lv
+    /\ UNCHANGED <<lane, exe, kern, cli, gh>>
 ChStart(t) ==
     /\ pc[t] = "ch_start"
     /\ gh' = [gh EXCEPT
           !.chStarts = IF @ < 2 THEN @ + 1 ELSE @,
+          !.chS = [@ EXCEPT ![lv[t].hg] = IF @ < 2 THEN @ + 1 ELSE @],
           !.bad = IF @ # "" THEN @
-                  ELSE IF gh.chStarts >= 1 THEN "cancel_handler_invoked_twice"
+                  ELSE IF gh.chS[lv[t].hg] >= 1 THEN "cancel_handler_invoked_twice"
+                  ELSE IF MaxSets = 0 /\ gh.chStarts >= 1 THEN "cancel_handler_invoked_twice"
+                  ELSE IF lv[t].hg \in gh.repl THEN "replaced_cancel_handler_invoked"
                   ELSE IF lv[t].onq # "tq" THEN "cancel_handler_not_on_target_queue"
                   ELSE IF gh.hRunning > 0 THEN "cancel_handler_while_event_handler_running"
                   ELSE IF kern.reg \/ kern.mux \/ src.du.reg THEN "cancel_handler_before_unregistration"
@@ -409,8 +510,10 @@ ChStart(t) ==
                   ELSE ""]
     /\ Go(t, "ch_end")
     /\ UNCHANGED <<src, lane, exe, kern, lv, cli>>
-ChEnd(t) == /\ pc[t] = "ch_end" /\ gh' = [gh EXCEPT !.chEnds = IF @ < 2 THEN @ + 1 ELSE @] /\ Go(t, lv[t].tcont)
-            /\ UNCHANGED <<src, lane, exe, kern, lv, cli>>
+ChEnd(t) == /\ pc[t] = "ch_end"
+            /\ gh' = [gh EXCEPT !.chEnds = IF @ < 2 THEN @ + 1 ELSE @, !.chE = [@ EXCEPT ![lv[t].hg] = IF @ < 2 THEN @ + 1 ELSE @]]
+            /\ Set(t, lv[t].tcont, [lv[t] EXCEPT !.hg = 0])
+            /\ UNCHANGED <<src, lane, exe, kern, cli>>
 CcDone(t) == /\ pc[t] = "cc_done" /\ Set(t, "i_rearm", [lv[t] EXCEPT !.dqf = src.dqf])
              /\ UNCHANGED <<src, lane, exe, kern, cli, gh>>
 \* if (!(dqf & CANCELED) && needs_rearm) { hop to dkq; suspended -> target; avoid_starvation -> target; resume }
@@ -449,7 +552,8 @@ InvFin(t) ==
 InvXor(t) ==
     /\ pc[t] = "inv_xor"
     /\ lane' = [lane EXCEPT !.dirty = FALSE]
-    /\ IF lv[t].onq = "tq" /\ ~TargetSerial THEN Go(t, "i_inst") /\ lv' = lv
+    /\ IF lv[t].onq = "tq" /\ ~TargetSerial
+       THEN Set(t, IF MaxSets = 0 THEN "i_inst" ELSE "i_drain", [lv[t] EXCEPT !.retq = "none", !.avoid = FALSE])
        ELSE Ret(t, Own(t))
     /\ UNCHANGED <<src, exe, kern, cli, gh>>
 
@@ -457,9 +561,12 @@ InvXor(t) ==
 PopTq(w) ==
     /\ pc[w] = "idle" /\ exe.tqList # <<>> /\ (TargetSerial => exe.tqOwner = NULL)
     /\ exe' = [exe EXCEPT !.tqList = Tail(@), !.tqOwner = IF TargetSerial THEN w ELSE NULL]
-    /\ IF Head(exe.tqList) = "src" THEN Set(w, "inv_lock", [L0 EXCEPT !.onq = "tq"])
-       ELSE Set(w, "c_or", [L0 EXCEPT !.onq = "tq", !.ctx = "tqitem", !.ccont = "done"])
-    /\ UNCHANGED <<src, lane, kern, cli, gh>>
+    /\ IF Head(exe.tqList) = "src" THEN Set(w, "inv_lock", [L0 EXCEPT !.onq = "tq"]) /\ UNCHANGED <<cli, gh>>
+       ELSE IF Head(exe.tqList) = "citem"
+            THEN Set(w, "c_or", [L0 EXCEPT !.onq = "tq", !.ctx = "tqitem", !.ccont = "done"]) /\ UNCHANGED <<cli, gh>>
+       ELSE IF cli.sets < MaxSets THEN SetCall(w, [L0 EXCEPT !.onq = "tq", !.ctx = "tqitem"], "done")     \* "sitem"
+       ELSE Set(w, "done", [L0 EXCEPT !.onq = "tq"]) /\ UNCHANGED <<cli, gh>>
+    /\ UNCHANGED <<src, lane, kern>>
 PopMgr ==
     /\ pc[MGR] = "idle" /\ exe.mgrList
     /\ exe' = [exe EXCEPT !.mgrList = FALSE]
@@ -553,7 +660,16 @@ ClCitem == /\ AllowCitem /\ pc[CL] = "idle" /\ "citem" \notin cli.did
            /\ exe' = [exe EXCEPT !.tqList = Append(@, "citem")]
            /\ UNCHANGED <<src, lane, kern, pc, lv, gh>>
 
-(* ---------------- the foreign thread: cancel / cancel_and_wait ---------------- *)
+\* an item on the target queue that calls dispatch_source_set_cancel_handler
+ClSitem == /\ "tqitem" \in SetCtx /\ pc[CL] = "idle" /\ "sitem" \notin cli.did /\ ~lane.inactive
+           /\ cli' = [cli EXCEPT !.did = @ \cup {"sitem"}]
+           /\ exe' = [exe EXCEPT !.tqList = Append(@, "sitem")]
+           /\ UNCHANGED <<src, lane, kern, pc, lv, gh>>
+
+(* ---------------- the foreign thread: cancel / cancel_and_wait / set_cancel_handler ---------------- *)
+CcSet == /\ "foreign" \in SetCtx /\ pc[CC] = "idle" /\ cli.sets < MaxSets /\ ~lane.inactive
+         /\ SetCall(CC, [L0 EXCEPT !.ctx = "foreign"], "idle")
+         /\ UNCHANGED <<src, lane, exe, kern>>
 CcCancel == /\ pc[CC] = "idle" /\ cli.fcancels < MaxForeign
             /\ cli' = [cli EXCEPT !.fcancels = @ + 1]
             /\ Set(CC, "c_or", [L0 EXCEPT !.ctx = "foreign", !.ccont = "idle"])
@@ -639,11 +755,12 @@ Lib(t) == WkRead1(t) \/ WkRead2(t) \/ WkRmw(t) \/ WkBcXor(t) \/ UUnreg(t) \/ UDu
           \/ Done(t) \/ InvLock(t) \/ IInst(t) \/ IInstall(t) \/ ISusp(t) \/ INdel(t) \/ IDqf(t) \/ IPend(t)
           \/ LXchg(t) \/ HStart(t) \/ HBody(t) \/ HEnd(t) \/ LDqf2(t) \/ LPend2(t) \/ ICancel(t) \/ IDqf3(t)
           \/ ICallout(t) \/ CcTake(t) \/ ChStart(t) \/ ChEnd(t) \/ CcDone(t) \/ IRearm(t) \/ IResume(t)
+          \/ IDrain(t) \/ IPop(t) \/ IDrepl(t) \/ SDqf(t) \/ STry(t) \/ SRepl(t) \/ SPush(t)
           \/ InvFin(t) \/ InvXor(t) \/ MeDu(t) \/ MeWk(t) \/ IRegh(t) \/ RTake(t) \/ RStart(t) \/ RBody(t) \/ REnd(t) \/ MdAdd(t)
 MgrStep == PopMgr \/ MFd \/ MFdDu \/ MFdPd \/ MHupDu \/ MHupPd \/ MHupDel \/ MSig \/ MTmr
 CawStep == CawRmw \/ CawLock \/ CawL1 \/ CawL2 \/ CawBc \/ CawAct \/ CawWait0 \/ CawChk \/ CawCas \/ CawFutex \/ CawRet
 Env == PeerWrite \/ PeerClose \/ Raise
-Client == ClActivate \/ ClSuspend \/ ClResume \/ ClMerge \/ ClCitem \/ CcCancel \/ CcCaw
+Client == ClActivate \/ ClSuspend \/ ClResume \/ ClMerge \/ ClCitem \/ ClSitem \/ CcCancel \/ CcCaw \/ CcSet
 Next == (\E t \in Threads : Lib(t)) \/ (\E w \in Workers : PopTq(w)) \/ MgrStep \/ CawStep \/ CawSpurious \/ Env \/ Client
 Spec == Init /\ [][Next]_vars
 \* fairness: every library step, the executors, calls in progress; the client eventually activates and resumes
@@ -659,14 +776,20 @@ PCs == {"idle", "wk_r1", "wk_r2", "wk_rmw", "wk_bcxor", "u_unreg", "u_du", "u_fi
         "i_regh", "r_take", "r_start", "r_body", "r_end", "i_ndel", "i_dqf", "i_pend", "l_xchg", "h_start", "h_body", "h_end", "l_dqf2", "l_pend2", "i_cancel",
         "i_dqf3", "i_callout", "cc_take", "ch_start", "ch_end", "cc_done", "i_rearm", "i_resume", "inv_fin",
         "inv_xor", "m_fd_du", "m_fd_pd", "m_hup_du", "m_hup_pd", "m_hup_del", "me_du", "me_wk", "md_add", "caw_rmw", "caw_lock",
-        "caw_l1", "caw_l2", "caw_bc", "caw_act", "caw_wait0", "caw_chk", "caw_cas", "caw_futex", "caw_sleep", "caw_ret"}
+        "caw_l1", "caw_l2", "caw_bc", "caw_act", "caw_wait0", "caw_chk", "caw_cas", "caw_futex", "caw_sleep", "caw_ret",
+        "i_drain", "i_pop", "i_drepl", "s_dqf", "s_try", "s_repl", "s_push"}
 TypeOK == /\ src.dqf \subseteq Flags /\ src.pending \in 0..1 /\ pc \in [Threads -> PCs]
           /\ lane.lock \in Threads \cup {NULL} /\ lane.enq \in {"none", "tq", "mgr"} /\ lane.susp \in 0..1
           /\ gh.hRunning \in 0..2
+          /\ src.hnd.cancel \in {0} \cup Gens /\ Len(src.items) <= MaxSets /\ cli.sets \in 0..MaxSets
+          /\ gh.req \subseteq Gens /\ gh.inst \subseteq Gens /\ gh.repl \subseteq gh.inst
 \* C16 as stated (ghost verdicts at HandlerStart / CancelHandlerStart / CawRet)
 C16 == gh.bad = ""
 HandlerExclusive == gh.hRunning <= 1
-CancelHandlerOnce == gh.chStarts <= 1
+CancelHandlerOnce == (\A g \in Gens : gh.chS[g] <= 1) /\ (MaxSets = 0 => gh.chStarts <= 1)
+\* NOT guaranteed by the code once handlers are replaced after activation (informational, refuted on purpose): a
+\* replacement that takes effect after the callout of the previous handler gets a callout of its own
+OneCalloutPerSource == gh.chStarts <= 1
 RegistrationHandlerOnce == gh.regStarts <= 1
 \* structural
 WaiterImpliesCanceled == "CANCEL_WAITER" \in src.dqf => "CANCELED" \in src.dqf
@@ -677,7 +800,13 @@ EnqAssert == \A t \in Threads : pc[t] = "inv_lock" => lane.enq = Own(t)
 \* convergence as a safety property: when nothing can move any more, a cancelled + activated + resumed source is final
 Final == /\ {"CANCELED", "DELETED"} \subseteq src.dqf /\ "CANCEL_WAITER" \notin src.dqf
          /\ (~IsDirect => ~src.du.reg) /\ ~kern.reg /\ ~kern.mux
-         /\ (HasCancelHandler => gh.chEnds = 1) /\ gh.hRunning = 0
+         /\ gh.hRunning = 0
+         \* every requested replacement took effect, nothing is left in the slot or in the source's item list, and every
+         \* handler that was in the slot ran exactly once unless a replacement took it out (MaxSets = 0: gh.chEnds = 1)
+         /\ src.hnd.cancel = 0 /\ src.items = <<>> /\ gh.req \subseteq gh.inst
+         /\ \A g \in gh.inst \ gh.repl : gh.chE[g] = 1
+         /\ \A g \in Gens : gh.chE[g] = gh.chS[g]
+         /\ (MaxSets = 0 /\ HasCancelHandler => gh.chEnds = 1)
 Quiescent == /\ \A t \in Threads : pc[t] = "idle"
              /\ exe.tqList = <<>> /\ ~exe.mgrList
              /\ ~(Kind = "fd" /\ kern.reg /\ kern.armed /\ kern.mux /\ (kern.readable \/ kern.hup))
